@@ -8,7 +8,7 @@ CONSTANTS
   MaxSteps = 7
   MaxPend = 2
   Kinds = {"do","loop","forin","fn","pcall","co"}
-  Handlers = {"ok","raise","raisetbc","nil","false","nometa","lost"}
+  Handlers = {"ok","raise","raisetbc","nil","false","nometa"}
   ViewHist = 0
   ErrKinds = {"str","tbl"}
   XHandlers = {}
